@@ -239,12 +239,81 @@ def correspondence(ctx, exes, ncases, seed_offset=0):
         ctx.report('impl:operator-mismatch:' + KNAMES[c['kind']], 'C07: %s on %s' % (what, c['head']),
                    {'replay_cmd': '%s %d %d' % (exe, ctx.seed + seed_offset, ncases), 'case': c['head'], 'a': a, 'b': b})
 
+KEY_BALL = 'Ball-Weld-verr-aerr-use-coincident-material-point'
+KEY_NOSLIP = 'NoSlip1D-aerr-omits-convective-terms'
+FD_TOL, EXACT_TOL = 1e-6, 1e-9
+
+def build_search(ctx):
+    exe = ctx.bdir('C07_search')
+    if not ctx.cxx(os.path.join(VERIF, 'harness', 'C07_search.cpp'), exe):
+        ctx.broken.append(('search:C07', 'search harness does not compile')); return None
+    return exe
+
+def witnesses(ctx, exe):
+    """replay the Coq refutation witnesses (C07_Ball.v, C07_NoSlip.v) on the implementation"""
+    rc, out, err = sh([exe, 'witness'], timeout=300)
+    w = {}
+    for l in out.split('\n'):
+        t = l.split()
+        if t and t[0] == 'WITNESS':
+            d = {}; key = None
+            for x in t[2:]:
+                try: d[key].append(float(x))
+                except (ValueError, KeyError): key = x; d[key] = []
+            w[t[1]] = d
+    ctx.extra['witness_replay'] = w
+    want = {'ball_verr': ('verr', 'fd_perr', 1, -1.0, 0.0), 'ball_aerr': ('aerr', 'fd_verr', 1, 0.0, -1.0), 'noslip_aerr': ('aerr', 'fd_verr', 0, 0.0, -1.0)}
+    for name, (a, b, i, va, vb) in want.items():
+        d = w.get(name)
+        if d is None:
+            ctx.broken.append(('witness:' + name, 'witness replay produced no output: ' + (out + err)[-200:])); continue
+        got_a, got_b = d[a][i], d[b][i]
+        if abs(got_a - va) < 1e-6 and abs(got_b - vb) < 1e-6:
+            key = KEY_NOSLIP if name == 'noslip_aerr' else KEY_BALL
+            ctx.report(key, 'C07 witness %s of the Coq refutation reproduced on the implementation: reported %s[%d] = %g but the time derivative (central difference) is %g' % (name, a, i, got_a, got_b),
+                       {'replay_cmd': exe + ' witness', 'witness': name, 'output': d})
+        else:
+            ctx.broken.append(('witness:' + name, 'the implementation no longer behaves as the refutation witness says (model %s=%g, derivative=%g; implementation %g, %g): the model is not faithful any more' % (a, va, vb, got_a, got_b)))
+
+def search(ctx, exe, n):
+    """failing-input search on the implementation alone: finite differences and adjoint residuals"""
+    rc, out, err = sh([exe, 'search', str(ctx.seed), str(n)], timeout=3000)
+    done = [l for l in out.split('\n') if l.startswith('DONE')]
+    rows = []
+    for l in out.split('\n'):
+        t = l.split()
+        if t and t[0] == 'S':
+            d = {'kind': int(t[1]), 'pair': int(t[4]), 'onman': int(t[6]), 'line': l}
+            for i in range(7, len(t) - 1, 2): d[t[i]] = float(t[i + 1])
+            rows.append(d)
+    worst = collections.defaultdict(float); nfail = 0; known = collections.Counter()
+    for d in rows:
+        k = d['kind']; offBW = k in (1, 2) and not d['onman']
+        for name, tol in (('e_G', EXACT_TOL), ('e_adj', EXACT_TOL), ('e_mulG', EXACT_TOL), ('e_dq', FD_TOL), ('e_du', FD_TOL), ('e_Pq', FD_TOL), ('e_bias', EXACT_TOL)):
+            v = d[name]
+            if not (v > tol):
+                worst[name] = max(worst[name], v); continue
+            if name in ('e_dq', 'e_du', 'e_Pq') and offBW: key = KEY_BALL
+            elif name == 'e_du' and k == 7: key = KEY_NOSLIP
+            elif name == 'e_bias' and k in (8, 11): key = KEY_BIAS
+            else: key = 'impl:%s:%s' % (name, KNAMES[k])
+            if key in (KEY_BALL, KEY_NOSLIP, KEY_BIAS): known[key] += 1
+            else: nfail += 1
+            ctx.report(key, 'C07 search: %s = %.3g exceeds %.1g on %s' % (name, v, tol, l), {'replay_cmd': '%s search %d %d' % (exe, ctx.seed, n), 'failing_input': d['line']})
+    ctx.extra['search'] = {'systems': len(rows), 'predicate_evaluations': int(done[0].split()[1]) if done else 0, 'unexpected_failures': nfail,
+                           'known_finding_hits': dict(known), 'worst_residual_among_passing': dict(worst), 'fd_tol': FD_TOL, 'exact_tol': EXACT_TOL}
+    if not rows: ctx.broken.append(('search:C07', 'search produced no rows: ' + (out + err)[-300:]))
+
 def run(ctx):
     ctx.build_repo()
     ctx.coq_props(PROPS)
     exes = build_sides(ctx)
     if exes:
         correspondence(ctx, exes, 260 if ctx.tier == 'quick' else 2600)
+    sx = build_search(ctx)
+    if sx:
+        witnesses(ctx, sx)
+        search(ctx, sx, (2000 if ctx.broken else 78) if ctx.tier == 'quick' else 3000)
     ctx.cov['rule'] = ('correspondence: random 5-body trees (Ground + 4; 10 mobilizer types; quaternion or Euler), one constraint of each of the 13 first-wave kinds in turn on a random '
                        'body pair (different branches / ancestor-descendant / with Ground, both orders; NoSlip1D with a third case body), random violated state and every third round projected onto '
                        'the manifold, random udot and multipliers; perr, verr, aerr, forces from multipliers, every column of G, G*u, G^T*lambda compared (rel 1e-9 of the vector scale, abs 1e-10); '
